@@ -116,3 +116,14 @@ def cases(rng, tier):
     for i in range(nsmall):
         idx += 1
         yield small_case("w%d" % idx, rng, rng.choice(["wobj", "wobja", "wva", "wcs"]))
+
+
+def extra(ctx):
+    """the translated byte-level writers cited by the C13 source theorems, run inside Coq under the byte budgets the C functions get (checks/impdiff.py)"""
+    import random
+    from checks import impdiff
+    n = {"quick": 200, "thorough": 2000, "search": 60}.get(ctx["tier"], 200)
+    diffs, cov = impdiff.run_writers(ctx, random.Random(ctx["seed"] * 4099 + 5), n)
+    corr = [{"case": None, "fails": ["translated writer and compiled function differ: " + d], "diffs": []} for d in diffs[:5]]
+    cov = dict(cov); cov["evaluations"] = cov.get("imp_writer_runs", 0)
+    return [], corr, cov
